@@ -27,7 +27,7 @@ TECHNIQUE = ('deterministic simulation: INSTALLED_APPS change as a deploy '
              'step, real-process upgrade runs, sqlite3 snapshots before / '
              'after, sql_error@k in the purge batch + retry')
 PLAN = {
-    'quick': {'count': 350, 'max_wall': 170, 'shrink_budget': 20,
+    'quick': {'count': 700, 'max_wall': 170, 'shrink_budget': 20,
               'shrink_wall': 100},
     'thorough': {'count': 6000, 'max_wall': 1500, 'shrink_budget': 50,
                  'shrink_wall': 300},
